@@ -520,22 +520,22 @@ pub fn check(tier: Tier) -> Check {
         ],
         deciding: vec!["C04"],
         streams: vec![
-            Stream::new("faults", tier.pick(2000, 40_000), faults_scenario),
-            Stream::new("chain", tier.pick(200, 2400), chain_scenario),
-            Stream::new("edge", tier.pick(80, 800), edge_scenario),
+            Stream::new("faults", tier.pick(10_000, 40_000), faults_scenario),
+            Stream::new("chain", tier.pick(1_000, 2400), chain_scenario),
+            Stream::new("edge", tier.pick(400, 800), edge_scenario),
         ],
         require: vec![
-            ("searches", tier.pick(2500, 50_000)),
-            ("silent_searches", tier.pick(40, 2000)),
-            ("answers_just_in_time_accepted", tier.pick(100, 5000)),
-            ("answers_just_late_ignored", tier.pick(100, 5000)),
-            ("searches_with_send_failures_termination_only", tier.pick(50, 2500)),
-            ("searches_closed_exactly_endgame_after_last_outstanding", tier.pick(500, 25_000)),
-            ("chain_searches", tier.pick(50, 1000)),
-            ("searches_on_node_without_contacts", tier.pick(10, 100)),
-            ("searches_on_shut_down_node", tier.pick(10, 100)),
-            ("searches_on_node_whose_contacts_went_bad", tier.pick(5, 50)),
-            ("searches_with_stream_dropped_mid_way", tier.pick(5, 50)),
+            ("searches", tier.pick(12_500, 50_000)),
+            ("silent_searches", tier.pick(200, 2000)),
+            ("answers_just_in_time_accepted", tier.pick(500, 5000)),
+            ("answers_just_late_ignored", tier.pick(500, 5000)),
+            ("searches_with_send_failures_termination_only", tier.pick(250, 2500)),
+            ("searches_closed_exactly_endgame_after_last_outstanding", tier.pick(2_500, 25_000)),
+            ("chain_searches", tier.pick(250, 1000)),
+            ("searches_on_node_without_contacts", tier.pick(50, 100)),
+            ("searches_on_shut_down_node", tier.pick(50, 100)),
+            ("searches_on_node_whose_contacts_went_bad", tier.pick(25, 50)),
+            ("searches_with_stream_dropped_mid_way", tier.pick(25, 50)),
         ],
         exhaustive: false,
     }
